@@ -1058,10 +1058,9 @@ class BaseGaussianState(BaseState):
         self._alpha = self._mu[: self._modes] + 1j * self._mu[self._modes :]
         self._alpha /= np.sqrt(2 * self._hbar)
 
-        self._pure = (
-            np.abs(np.linalg.det(self._cov) - (self._hbar / 2) ** (2 * self._modes))
-            < self.EQ_TOLERANCE
-        )
+        # the state is pure iff det(cov / (hbar/2)) = 1; the covariance matrix is normalised
+        # first, so that the (absolute) tolerance means the same for every hbar and mode number
+        self._pure = np.abs(np.linalg.det(self._cov / (self._hbar / 2)) - 1.0) < self.EQ_TOLERANCE
 
         self._basis = "gaussian"
         self._str = "<GaussianState: num_modes={}, pure={}, hbar={}>".format(
